@@ -194,7 +194,7 @@ def v1(ctx, n_random, which=("opt",)):
     n = 0
     bad = 0
     for w in which:
-        opts = {} if w == "opt" else {"pest_optimizer": "false"}
+        opts = {} if w == "opt" else {"pest_optimizer": False}
         gs = [("v%d" % i, t, opts) for i, t in enumerate(texts)]
         res = gendump.dump(gs)
         valid = [(gid, res[gid]) for gid, _, _ in gs if res[gid].meta_ok and res[gid].gen_ok]
